@@ -240,5 +240,10 @@ def check(s):
              "the `rewards` the estimator reads are the environment's reward of that step (plus the truncation bootstrap of that same step only)", o["loc"],
              key="estimator-rewards-source", detail=f"code: {show_term(got_r, 400) if got_r else 'missing'}\nreference: {show_term(want_r, 400)}",
              necessary_for="r_t in delta_t is the reward of step t")
-    for r, n in (("C03.1", 3), ("C03.2", 2), ("C03.3", 1), ("C03.4", 2), ("C03.5", 2), ("C03.6", 4), ("C03.7", 5), ("C03.8", 6)):
+    # ---------------------------------------------------------------- C03.9 the estimator's hyper-parameters are the configured ones
+    from .util import ctor_wiring
+    for cls_ in ("PPO", "A2C", "REINFORCE"):
+        ctor_wiring(s, "C03.9", cls_, necessary_for="all gamma and lambda in [0,1] (lambda=0 gives one-step TD errors, lambda=1 Monte-Carlo returns): the values passed to the "
+                                                    "estimator are the ones the user configured, zero included")
+    for r, n in (("C03.1", 3), ("C03.2", 2), ("C03.3", 1), ("C03.4", 2), ("C03.5", 2), ("C03.6", 4), ("C03.7", 5), ("C03.8", 6), ("C03.9", 20)):
         s.floor(r, n)
